@@ -135,8 +135,10 @@ def build_cases(sc: H.Scratch, tier: str, rng: random.Random):
     cmds = {"claude": "ls > out.txt", "gemini": "git status", "cursor": "ls"}
     for tgt in OUTER + INNER:
         for ex in EXCS:
-            shape = g.SHAPES[(len(cases)) % 3]
-            add(mk(g.base_input(shape, cmds[shape], wd), label=f"fault:{tgt}", fault=(tgt, ex)))
+            for shape in (g.SHAPES if tier == "thorough" else [g.SHAPES[(len(cases)) % 3]]):
+                add(mk(g.base_input(shape, cmds[shape], wd), label=f"fault:{tgt}", fault=(tgt, ex)))
+                if tier == "thorough":
+                    add(mk(g.base_input(shape, "git status | cat > o.txt", wd), label=f"fault:{tgt}", fault=(tgt, ex), user_cfg=DENY_CFG))
     for ex in EXCS + ["ConfigError"]:
         add(mk(g.base_input("claude", "ls", wd), label="fault:load_config", fault=("load_config", ex)))
         add(mk(g.base_input("claude", "ls", wd, permission_mode="bypassPermissions"), label="fault+bypass", fault=("log_decision", ex)))
@@ -149,6 +151,30 @@ def build_cases(sc: H.Scratch, tier: str, rng: random.Random):
     add(mk(g.base_input("gemini", "ls", wd, permission_mode="bypassPermissions"), label="config-error+bypass", env_cfg="/proc/self/mem"))
     add(mk(g.base_input("claude", "ls", wd), label="config-not-utf8", env_cfg=sc.file(b"allow \xff\xfe\n")))
     add(mk(g.base_input("claude", "ls", wd), label="config-is-dir", env_cfg=wd))
+
+    # 6b. random structured stream: random objects over the routing keys, random value types and plausible values
+    plausible = {"tool_name": ["Bash", "shell", "run_shell", "run_shell_command", "execute_shell", "mcp__ok__x", "mcp__q__y", "Read", "bash", ""],
+                 "command": ["ls", "rm x", "git status", "echo $(", "", "zap it"], "cwd": [wd, wd + "/sub", ".", "", "/nonexistent"],
+                 "hook_event_name": ["PreToolUse", "BeforeTool", "beforeShellExecution", "posttooluse", ""],
+                 "permission_mode": ["default", "bypassPermissions", "dontAsk", "plan"]}
+    def rnd_value(key):
+        if rng.random() < 0.6 and key in plausible:
+            return rng.choice(plausible[key])
+        return rng.choice(g.TYPES[1:])[1]
+    for _ in range(150 if tier == "quick" else 3000):
+        d = {}
+        for key in ("tool_name", "command", "cwd", "hook_event_name", "permission_mode"):
+            if rng.random() < 0.6:
+                d[key] = rnd_value(key)
+        if rng.random() < 0.7:
+            ti = {}
+            if rng.random() < 0.8:
+                ti["command"] = rnd_value("command")
+            if rng.random() < 0.2:
+                ti["cwd"] = rnd_value("cwd")
+            d["tool_input"] = ti if rng.random() < 0.85 else rng.choice(g.TYPES[1:])[1]
+        flags = rng.choice([(), (), (), ("--claude",), ("--gemini",), ("--cursor",)])
+        add(H.Case(g.dumps(d), label="random-structured", flags=flags, user_cfg=rng.choice([None, MCP_CFG, DENY_CFG])))
 
     # 7. the legitimate allows, and denies
     for pm in ("bypassPermissions", "dontAsk", "default", "plan", "acceptEdits", "BYPASSPERMISSIONS", ["bypassPermissions"], {"dontAsk": 1}, None, 1):
@@ -185,7 +211,7 @@ def allow_origin(sc, c: H.Case, value, reason):
         return "bypass"
     ti = value.get("tool_input") if isinstance(value.get("tool_input"), dict) else {}
     cwds = [x for x in (value.get("cwd"), ti.get("cwd")) if isinstance(x, str) and x] + [sc.proj(c.proj_cfg)]
-    if isinstance(tn, str) and tn.startswith("mcp__"):
+    if isinstance(tn, str) and tn.startswith("mcp__") and H.expected_mode(c, value) != "cursor":
         for cwd in cwds:
             try:
                 cfg = H.real_load_config(sc, c, cwd)
@@ -319,7 +345,7 @@ def run(tier, seed, replay=None):
         "lenient and strict stdin decoding, lone surrogates and NUL in every str field, random bytes, byte flips); commands 10 B..500 kB "
         "(words, pipeline, one word, unterminated quote), cwd and MCP names of those sizes, command nesting 10..100000 (subshell, $(), "
         "brace group, if); unusable cwd (missing, relative, deleted working directory); 8 injection points x 7 exception classes "
-        "(+ ConfigError) on shell, bypass and MCP paths; unreadable / non-UTF-8 / directory config; bypass modes of every type on "
+        "(+ ConfigError) on shell, bypass and MCP paths; random objects over the routing keys with random types / plausible values / flags; unreadable / non-UTF-8 / directory config; bypass modes of every type on "
         "shell, MCP and other tools; all verdict classes. distinct = distinct (stdin, flags, env, configs, fault, io); non-trivial = "
         "everything except the plain well-formed verdict-class and tool-name cases")
     return out
